@@ -176,7 +176,7 @@ class Interp:
         elif k == 2:
             n = w.mk("f", lib.cJSON_CreateFalse())
         elif k == 3:
-            n = w.mk("t" if b & 1 else "f", lib.cJSON_CreateBool(b & 1))
+            n = w.mk("t" if b & 1 else "f", lib.cJSON_CreateBool((b & 1) and (1, 2, -1, 256, 1, 4)[(b >> 1) % 6]))
         elif k == 4:
             v = NUM_POOL[b % len(NUM_POOL)]
             n = w.mknum(lib.cJSON_CreateNumber(v), v)
@@ -423,7 +423,7 @@ class Interp:
             ("AddNullToObject", lambda o, key: lib.cJSON_AddNullToObject(o, key), "n"),
             ("AddTrueToObject", lambda o, key: lib.cJSON_AddTrueToObject(o, key), "t"),
             ("AddFalseToObject", lambda o, key: lib.cJSON_AddFalseToObject(o, key), "f"),
-            ("AddBoolToObject", lambda o, key: lib.cJSON_AddBoolToObject(o, key, d & 1), "t" if d & 1 else "f"),
+            ("AddBoolToObject", lambda o, key: lib.cJSON_AddBoolToObject(o, key, (d & 1) and (1, 2, -1, 256, 1, 4)[(d >> 1) % 6]), "t" if d & 1 else "f"),
             ("AddNumberToObject", lambda o, key: lib.cJSON_AddNumberToObject(o, key, v), "N"),
             ("AddStringToObject", lambda o, key: lib.cJSON_AddStringToObject(o, key, s), "S"),
             ("AddRawToObject", lambda o, key: lib.cJSON_AddRawToObject(o, key, s), "R"),
@@ -695,7 +695,7 @@ class Interp:
         n = pick([x for x in w.all_nodes() if not (x.is_ref and x.dangling)], a)
         if n is None:
             return "skip"
-        got = lib.shim_set_bool_value(n.ptr, b & 1)
+        got = lib.shim_set_bool_value(n.ptr, (b & 1) and (1, 2, -1, 256, 1, 4)[(b >> 1) % 6])   # cJSON_bool is an int: any non-zero value is true
         if n.t in "tf":
             n.t = "t" if b & 1 else "f"
             if not got:
